@@ -26,6 +26,15 @@ DEFAULT_LIMITS = (100, 10000, 10000, 1000000)          # depthMax arrayItemsMax 
 TLC_SLOTS = threading.Semaphore(7)                     # concurrent JVMs
 
 
+def tlc_twice(fn):
+    """run a TLC job; if the JVM was killed from outside (rc 137/143: another job's clean-up, the OOM killer) run it once more"""
+    r = fn()
+    err = getattr(r, "error", None)
+    if err and re.search(r"rc=(-9|-15|137|143)\b", err):
+        r = fn()
+    return r
+
+
 def jvm(xmx):
     """Feed() recurses once per byte of a serializer output / mutated input: give the evaluator threads a deep stack"""
     return {"JAVA_TOOL_OPTIONS": "-Xss512m -Xmx%s -DTLA-Library=%s -Dtlc2.tool.queue.IStateQueue=StateDeque" % (
@@ -44,7 +53,7 @@ NUM_FORMS = ["n12", "nm12", "n0_5", "n1e2", "n1Em7", "n1_5ep3", "nm0", "nm0_0", 
 # name, alphabet, (MaxLen, MaxDead) quick, (MaxLen, MaxDead) thorough, must produce "either" cases
 CONFIGS = [
     ("struct", ["LB", "RB", "LC", "RC", "CM", "CL", "SK", "D1", "N", "SP"], (6, 2), (7, 2), False),
-    ("members", ["LC", "RC", "CM", "SKC", "SXC", "SUKC", "SEC", "D1", "D7", "LB", "RB"], (6, 1), (7, 1), False),
+    ("members", ["LC", "RC", "CM", "SKC", "SXC", "SUKC", "SEC", "D1", "D7", "LB", "RB"], (7, 1), (7, 2), False),   # {"k":1,"k":7} needs 7
     ("numchars", ["MN", "PL", "D0", "D1", "D7", "DOT", "Ee", "EE", "SP", "LB", "RB", "CM"], (5, 1), (6, 1), False),
     ("numforms", NUM_FORMS + ["MN", "SP", "LB", "RB", "CM"], (2, 1), (3, 1), False),
     ("strpieces", STR_PIECES, (3, 1), (4, 1), True),
@@ -79,13 +88,15 @@ def generate(ck, name, alphabet, maxlen, maxdead):
     consts = dict(DEV0)
     consts.update({"Alphabet": "<- MCAlphabet", "MaxLen": maxlen, "MaxDead": maxdead, "OutFile": '"%s"' % out})
     cfg = os.path.join(d, "MCJson.cfg")
-    vf.write_cfg(cfg, constants=consts, invariants=["TypeOK", "MeasuresOK", "VerdictOK", "CaseOut"])
+    # ByteLevel (the verdict is a function of the bytes, not of the lexeme grouping) doubles the cost: smallest alphabets only
+    invs = ["TypeOK", "MeasuresOK", "VerdictOK"] + (["ByteLevel"] if name in ("literals", "numforms") else []) + ["CaseOut"]
+    vf.write_cfg(cfg, constants=consts, invariants=invs)
     with TLC_SLOTS:
         # no -coverage here: TLC's cost-model instrumentation of this specification exhausts the heap before the first
         # state (probed: 4 GB, 90 s).  Coverage is measured from the emitted cases instead (every lexeme of the alphabet
         # must occur in a case, see pipeline()).
-        r = vf.run_tlc(os.path.join(d, "MCJson.tla"), cfg, tag="C13_gen_" + name, workers=2, coverage=False,
-                       lib_dirs=[SPECDIR], timeout=1500, xmx="4g")
+        r = tlc_twice(lambda: vf.run_tlc(os.path.join(d, "MCJson.tla"), cfg, tag="C13_gen_" + name, workers=2, coverage=False,
+                                         lib_dirs=[SPECDIR], timeout=1500, xmx="4g"))
     if r.error:
         raise vf.Infra("TLC failed on JsonGrammar (%s): %s" % (name, r.error))
     if r.violated:
@@ -255,7 +266,7 @@ def batch_eval(ck, inputs):
     consts.update({"InFile": '"%s"' % inp, "OutFile": '"%s"' % out})
     vf.write_cfg(cfg, constants=consts, invariants=["Out"])
     with TLC_SLOTS:
-        r = vf.run_tlc(os.path.join(SPECDIR, "JsonBatch.tla"), cfg, tag="C13_batch", workers=4, timeout=1500, env=jvm("4g"))
+        r = tlc_twice(lambda: vf.run_tlc(os.path.join(SPECDIR, "JsonBatch.tla"), cfg, tag="C13_batch", workers=4, timeout=1500, env=jvm("4g")))
     if r.error or r.violated:
         raise vf.Infra("JsonBatch.tla failed: %s %s" % (r.violated, r.error))
     res = [None] * len(inputs)
@@ -334,8 +345,8 @@ def merge_and_validate(ck, tag, opath, lines, meta, chunk=30000, cap=40, consts=
                 for e in evs[start:]:
                     f.write(json.dumps(e) + "\n")
             with TLC_SLOTS:
-                v = vf.validate_trace(os.path.join(SPECDIR, "JsonTrace.tla"), cfg, tp, tag="C13_val_%s_%d" % (tag, i),
-                                      xmx="3g", timeout=1500, env=jvm("3g"))
+                v = tlc_twice(lambda: vf.validate_trace(os.path.join(SPECDIR, "JsonTrace.tla"), cfg, tp, tag="C13_val_%s_%d" % (tag, i),
+                                                        xmx="3g", timeout=1500, env=jvm("3g")))
             if v.error:
                 errs = [x for x in v.out.splitlines() if x.startswith("Error") or "evaluat" in x or "Attempted" in x]
                 raise vf.Infra("trace validation error (%s, trace kept: %s): %s\n%s" % (tag, tp, "\n".join(errs[:12]), v.error[-600:]))
@@ -376,6 +387,9 @@ def final_report(ck):
     for tag, text, e, why in acc["bad"]:
         groups.setdefault(why, []).append((tag, text, e))
     for why, items in sorted(groups.items()):
+        if why.startswith("more than") and len(groups) > 1:
+            ck.note("%s: %d" % (why, len(items)))      # the recorded events of the same chunks are reported below/above
+            continue
         tags = sorted({t for t, _, _ in items})
         name = re.sub(r"\W+", "_", why)[:70]
         rp = ck.save_replay(name, {"events.json": [e for _, _, e in items[:300]],
